@@ -79,7 +79,16 @@ func ruleC10R1(r *Run) {
 	// newT census
 	n := 0
 	for _, fn := range p.FuncList {
-		for _, cs := range p.callsTo(fn, "newT") {
+		// the T-creating calls of fn: newT(…) calls, and calls of a local closure that only wraps one
+		var creators []*callSite
+		for _, cs := range p.calls(fn) {
+			if c, isCall := cs.Instr.(*ssa.Call); isCall {
+				if _, isT := p.tCreator(c); isT && p.within(c.Parent(), fn) {
+					creators = append(creators, cs)
+				}
+			}
+		}
+		for _, cs := range creators {
 			n++
 			v := cs.Value()
 			name := p.fnName(fn)
@@ -803,8 +812,10 @@ func ruleC11R1(r *Run) {
 	// first hand-off of the T (for local brackets)
 	judge := func(construct string, fn *ssa.Function, tv ssa.Value, at ssa.Instruction, bracketKeys map[string]bool) {
 		nt, isNew := tv.(*ssa.Call)
-		if isNew && p.calleeKey(nt.Common()) != "newT" {
-			isNew = false
+		if isNew {
+			if _, isT := p.tCreator(nt); !isT {
+				isNew = false
+			}
 		}
 		fresh := false
 		why := "the T is " + p.expr(tv) + " (not the result of newT in this function)"
